@@ -51,6 +51,8 @@ def ev(n, e: Env) -> float:
         return ev(e.pool[n[1]], e)
     if k == 'draws':
         return float(e.draws[n[1]])
+    if k == 'rv':
+        return float(e.omega)
     if k == '+':
         return ev(n[1], e) + ev(n[2], e)
     if k == '-':
@@ -269,14 +271,24 @@ class Builder:
             if key not in self.draw_objs:
                 self.draw_objs[key] = ex.bioDraws(n[1], n[2])
             return self.draw_objs[key]
-        if k == '+':
-            return b(n[1]) + b(n[2])
-        if k == '-':
-            return b(n[1]) - b(n[2])
-        if k == '*':
-            return b(n[1]) * b(n[2])
-        if k == '/':
-            return b(n[1]) / b(n[2])
+        if k in ('+', '-', '*', '/'):
+            # a numeric operand is handed over as a plain Python number when it is integer-valued (reflected
+            # operators __radd__, __rsub__, ... on the left; implicit conversion on the right), as a Numeric
+            # expression otherwise
+            def operand(c):
+                if c[0] == 'num' and float(c[1]) == int(c[1]):
+                    return float(c[1]) if int(c[1]) % 2 else int(c[1])
+                return b(c)
+            left, right = operand(n[1]), operand(n[2])
+            if not hasattr(left, 'get_signature') and not hasattr(right, 'get_signature'):
+                left = b(n[1])
+            if k == '+':
+                return left + right
+            if k == '-':
+                return left - right
+            if k == '*':
+                return left * right
+            return left / right
         if k == 'neg':
             return -b(n[1])
         if k == 'pow':
@@ -328,7 +340,8 @@ class Builder:
         if k in ('loglogit', 'logit'):
             from biogeme import models
             utils = {int(a): b(u) for a, u in n[1].items()}
-            avs = {int(a): b(u) for a, u in n[2].items()} if n[2] is not None else None
+            # availabilities listed in another key order than the utilities (legal: both are dictionaries)
+            avs = {int(a): b(n[2][a]) for a in reversed(list(n[2]))} if n[2] is not None else None
             ch = b(n[3])
             return models.loglogit(utils, avs, ch) if k == 'loglogit' else models.logit(utils, avs, ch)
         if k == 'mc':
